@@ -2,6 +2,7 @@ package main
 
 import (
 	"fmt"
+	"go/types"
 	"strconv"
 	"strings"
 	"unicode"
@@ -203,8 +204,26 @@ func (p *sp) unary() Val {
 }
 func (p *sp) postfix() Val {
 	a := p.primary()
-	for p.peek() == "[" {
-		p.next()
+	for p.peek() == "[" || p.peek() == "." {
+		if p.next() == "." { // field of a struct element: s[k].f
+			fname := p.next()
+			if a.Kind == "ptr" && a.Cell != nil && a.Ty == nil {
+				a.Ty = a.Cell.Type()
+			}
+			if (a.Kind == "opaque" || a.Kind == "ptr") && a.Ty != nil {
+				if _, isPtr := a.Ty.Underlying().(*types.Pointer); isPtr { // field path of a typed pointer value
+					env2 := map[string]Val{}
+					for k, v := range p.env {
+						env2[k] = v
+					}
+					env2["$cast"] = a
+					a = p.g.fieldOf(p.st, "$cast", fname, env2)
+					continue
+				}
+			}
+			a = p.g.specElemField(p.st, a, fname, p.src)
+			continue
+		}
 		if p.peek() == ":" { // a[:hi]
 			p.next()
 			hi := p.iff()
@@ -241,6 +260,12 @@ func (p *sp) postfix() Val {
 		case "garrint":
 			a = intV(fmt.Sprintf("(select %s %s)", a.T, i.T))
 		default:
+			if stt, el, ok := structElem(a.Ty); ok && a.Ref != "" { // element of a slice of structs
+				_ = stt
+				ev := Val{Kind: "elemstruct", Ref: a.Ref, Idx: fmt.Sprintf("(+ %s %s)", a.Off, i.T), Ty: el, Heap: a.Heap}
+				a = ev
+				continue
+			}
 			if a.Kind == "int" && p.g.opaqueStr && a.Len == "" { // byte of an opaque string
 				a = intV(fmt.Sprintf("(%s %s %s)", p.g.uf("strbyte", 2, "Int"), a.T, i.T))
 				continue
@@ -328,7 +353,13 @@ func (p *sp) primary() Val {
 		p.env = env2
 		body := p.iff()
 		p.env = save
-		return boolV(fmt.Sprintf("(%s (%s) %s)", t, strings.Join(binders, " "), body.T))
+		bt := body.T
+		for i, v := range vars {
+			nv, nb := reindexQuant(v+"!q", bt)
+			bt = nb
+			binders[i] = "(" + nv + " Int)"
+		}
+		return boolV(fmt.Sprintf("(%s (%s) %s)", t, strings.Join(binders, " "), bt))
 	case t == "len":
 		p.expect("(")
 		a := p.iff()
@@ -389,6 +420,28 @@ func (p *sp) primary() Val {
 			panic(specErr{"spec: isdyn(x, \"type\")"})
 		}
 		return boolV(fmt.Sprintf("(and (not (= %s 0)) (= (%s %s) %s))", x.T, p.g.uf("dyntype", 1, "Int"), x.T, strID(ts)))
+	case t == "cast" && p.peek() == "(":
+		p.next()
+		x := p.iff()
+		p.expect(",")
+		lit := p.next()
+		p.expect(")")
+		ts, err := strconv.Unquote(lit)
+		if err != nil {
+			panic(specErr{"spec: cast(x, \"*pkg.Type\")"})
+		}
+		return p.g.specCast(x, ts)
+	case t == "fnname" && p.peek() == "(": // identity of a function value: fnname(x) == "pkg.Func" / "Outer$1"
+		p.next()
+		a := p.iff()
+		p.expect(")")
+		if a.Kind == "closure" && a.Fn != nil {
+			return p.g.strConstID(a.Fn.String())
+		}
+		if a.T != "" && (a.Kind == "opaque" || a.Kind == "int") {
+			return intV(a.T) // a function value read back from memory: its identity is the stored id
+		}
+		return intV(p.g.uf("unknownfn", 0, "Int"))
 	case t == "off":
 		p.expect("(")
 		a := p.iff()
